@@ -187,6 +187,19 @@ func checkC10(c *runCtx) {
 	for _, n := range []string{"gather-vs-restart", "gather-vs-gather", "gather-vs-gather-vs-restart", "gather-srflx-vs-restart", "gather-vs-close", "gather-srflx-vs-close"} {
 		csExplore(c, n, b, dl, nil)
 	}
+	// what the getters hand out are snapshots: kept results never change under later operations (explicit-state search)
+	{
+		p := newVTPool()
+		depth := 5
+		if !c.quick() {
+			depth = 6
+		}
+		for _, role := range []string{"controlling", "controlled"} {
+			vtSearch(c, p, vtSpec{Name: fmt.Sprintf("results of the collection getters are snapshots, %s, all sequences of length <= %d with <= 2 calls", role, depth), Model: "snapshots",
+				Cfg: soloCfg{Role: role, Depth: depth}, Deadline: dl})
+		}
+		p.close()
+	}
 	c10racePass(c)
 }
 
